@@ -48,6 +48,19 @@ def layout_program(rnd):
         # a name that first resolves to a function, later to a local injected before the use
         prog = ('def f%d() { 7 }; def g(b) { if (b) { eval("var f%d = 1") }; var t = 0; t }; ' % (n, n)) + "; ".join("print(g(%s))" % c for c in calls)
         return prog, "function-then-local"
+    if k < 0.87:
+        # a name that resolves to a function at the first evaluation of a call site and to a global object afterwards
+        prog = ('def greet%d() { "f" }; def other%d() { 1 }; def run() { greet%d() }; print(run()); global greet%d = fun() { "g" }; print(run()); print(run())' % (n, n, n, n))
+        return prog, "function-then-global"
+    if k < 0.90:
+        # a block that declares only references / only under a condition, followed by a later declaration in the enclosing frame
+        decl = rnd.choice(["auto &head = v[0]; out += head", "var &head = v[1]; out += head", "var t = v[0]; out += t", "auto t = 2; out += t"])
+        prog = ('def d(verbose, v) { var out = 0; if (verbose) { %s }; var n = v.size(); out * 100 + n }; ' % decl) + "; ".join("print(d(%s, [7, 8, 9]))" % c for c in calls)
+        return prog, "conditional-block-declaration"
+    if k < 0.93:
+        # a global shadowed later by a local of the same name
+        prog = ('global G%d = 1; def g(b) { if (b) { eval("var G%d = 50") }; G%d }; ' % (n, n, n)) + "; ".join("print(g(%s))" % c for c in calls)
+        return prog, "global-then-local"
     # lambda with captures called repeatedly, after further declarations in the caller
     prog = ('var c = %d; var l = fun[c](x) { var a = x; a + c }; print(l(1)); var more = 5; print(l(2)); { var inner = 1; print(l(3)) }' % rnd.randint(1, 9))
     return prog, "lambda-captures"
@@ -70,9 +83,17 @@ def gen(tier, seed):
 def judge(c, progs, kinds, source):
     on = E.run_impl(progs, "opt")
     off = E.run_impl(progs, "opt", extra=("nohints",))
+    # the model is run on the tree its *own* optimizer makes of the unoptimised parse, not on the tree the implementation's optimizer
+    # made: a stale hint that only exists because the implementation's optimizer produced a different tree is then not reproduced by
+    # the faithful model, so it is not attributed to the recorded finding
+    raw = E.run_impl(progs, "raw")
     evs = E.eval_tables(progs, "opt")
     idx = [i for i in range(len(progs)) if "tree" in off[i]]
-    trees = [off[i]["tree"] for i in idx]
+    own = E.run_optimizer_model([raw[i]["tree"] if "tree" in raw[i] else "" for i in idx])
+    trees = [o if (o and o.startswith("(")) else off[i]["tree"] for o, i in zip(own, idx)]
+    for o, i in zip(own, idx):
+        if o and o.startswith("(") and o != off[i]["tree"]:
+            c.disagree("optimize_tree(raw tree) vs the implementation's optimised tree", progs[i], off[i]["tree"][:1200], o[:1200])
     m_on = E.run_model("mech", trees, hints=True, evals=[evs[i] for i in idx])
     m_off = E.run_model("mech", trees, hints=False, evals=[evs[i] for i in idx])
     ref = E.run_model("spec", trees, hints=False, evals=[evs[i] for i in idx])
